@@ -159,7 +159,10 @@ def snapshot(sa, kind):
     return ref, sch, tuple(int(x) for x in sa.lmax)
 
 
-def first_run(case, maxev, tol=-1):
+def first_run(case, maxev, tol=None):
+    # "no tolerance" is written as -1 or as 0 (errors are non-negative, so both mean: stop on the point budget only)
+    if tol is None:
+        tol = case.get("notol", -1)
     sa, op, err = build(case)
     with drive.quiet():
         r = sa.performSpatiallyAdaptiv(case["lmin"], case["lmax"], err, tol=tol, max_evaluations=maxev, print_output=False)
@@ -167,6 +170,7 @@ def first_run(case, maxev, tol=-1):
 
 
 def cont(sa, maxev, tol=-1):
+    # (callers pass the case's own "no tolerance" value)
     with drive.quiet():
         return sa.continue_adaptive_refinement(tol=tol, max_evaluations=maxev)
 
@@ -194,7 +198,7 @@ def run(case):
     sub = kind
     K2 = case["maxev"]
     full_sa, full = first_run(case, K2)
-    tol_final = -1
+    tol_final = case.get("notol", -1)
     tsel = case.get("tol_sel", [0, 0])
     if tsel[0]:
         # final limits with an effective tolerance: an error value observed in the tol=-1 history (so the uninterrupted run
@@ -220,7 +224,7 @@ def run(case):
         K1 = N[k] - 1
         mode = modes[j % len(modes)]
         leg = case.get("legs", ["max"])[j % len(case.get("legs", ["max"]))]
-        if leg == "tol" and E_full[k] > tol_final and E_full[k] > 0:
+        if leg == "tol" and E_full[k] > max(tol_final, 0) and E_full[k] > 0:
             # first leg limited by a weaker tolerance instead of a smaller point limit
             sa2, r1 = first_run(case, K2, tol=E_full[k] * (1 + 1e-9))
             K1 = "tol=%.3g" % (E_full[k] * (1 + 1e-9))
@@ -238,6 +242,8 @@ def run(case):
         if kind == "es":
             vals = [np.asarray(o.value, dtype=float) for o in sa2.refinement.get_new_objects()]
             extra = np.sum(vals, axis=0) if vals else np.zeros_like(full_res)
+        if any(e == 0 for e in E_full):
+            out.cls("an-error-estimate-is-exactly-zero")
         tag = "interrupted at evaluation %d of %d (first leg %s, final limits tol=%.3g max_evaluations=%d), mode %s" % (
             len(r1[6]) - 1, len(N) - 1, K1 if leg == "tol" else "max_evaluations=%s" % K1, tol_final, K2, mode)
         targets = []
@@ -270,7 +276,7 @@ def run(case):
                 # larger point limit): it must return without refining, and the final continuation must still end where the
                 # uninterrupted run ends
                 before_noop = snapshot(obj, kind)
-                rn = cont(obj, n_at_stop - 1, -1)
+                rn = cont(obj, n_at_stop - 1, case.get("notol", -1))
                 if snapshot(obj, kind) != before_noop or int(rn[6][-1]) != n_at_stop:
                     out.bad(sub + "/continuation-with-met-limits-refined", "%s: %d -> %d points" % (tag, n_at_stop, int(rn[6][-1])))
                 out.cls("no-op-continuation-in-between")
@@ -295,7 +301,7 @@ def run(case):
                     out.bad(sub + "/final-result-differs", "%s: %s vs uninterrupted %s" % (t2, res2, full_res))
             if len(r1[6]) - 1 >= 1 and len(r2[6]) > len(r1[6]):
                 nt += 1
-            out.cls("mode=" + mode, "leg=" + leg, "final-tol=%s" % ("none" if tol_final == -1 else "observed-error"))
+            out.cls("mode=" + mode, "leg=" + leg, "final-tol=%s" % (("none(%r)" % case.get("notol", -1)) if tol_final in (-1, 0) else "observed-error"))
     out.nontrivial = nt >= 1
     out.cls("integrand-scale=%g" % case.get("fscale", 1.0))
     if kind == "es":
@@ -319,7 +325,8 @@ def _strategy(kind):
                      tol_sel=[draw(st.sampled_from([0, 1, 1])), draw(st.integers(0, 40))],
                      legs=draw(st.lists(st.sampled_from(["max", "max", "tol"]), min_size=1, max_size=3)),
                      noop=draw(st.lists(st.booleans(), min_size=1, max_size=3)),
-                     fscale=draw(st.sampled_from([1.0, 1.0, 1.0, 1e-12, 1e-10, 1e-6, 1e3, 1e8, -1e-11])))
+                     fscale=draw(st.sampled_from([1.0, 1.0, 1.0, 1e-12, 1e-10, 1e-6, 1e3, 1e8, -1e-11])),
+                     notol=draw(st.sampled_from([-1, 0, 0.0])))
             if kind == "dw":
                 c.update(lmin=1, lmax=2, version=draw(st.sampled_from([6, 6, 2, 3, 7, 8])), rebalancing=draw(st.booleans()),
                          boundary=draw(st.booleans()), maxev=draw(st.integers(30, 250 if dim == 2 else 200)),
